@@ -79,6 +79,8 @@ struct Runner
         const auto& fields = Cfg::fields();
         uint64_t next_id = 1;
         int step = 0;
+        // source form of the spans handed to emplace_back (see Glue::emplace_back): mostly std::vector<T>&&
+        auto src_form = [&](uint64_t id) { return (id + static_cast<uint64_t>(cno)) % 4 == 1 ? 1 : (id + static_cast<uint64_t>(cno)) % 4 == 3 ? 2 : 0; };
         auto ctx = [&](const char* op, const std::string& args)
         {
             set_ctx(cno, step++, op, cfg_str, out().extra_props[0] ? "C02,C03,C04,C05,C01,C10" : "C02,C03,C04,C05,C01", args.c_str());
@@ -125,8 +127,8 @@ struct Runner
         if (!check("construct")) return;
         for (auto& e : plan)
         {
-            ctx("emplace_back", fmt("id=%" PRIu64 ",counts=%s", e.id, jarr_num(counts_of(e)).c_str()));
-            G::emplace_back(*v, e);
+            ctx("emplace_back", fmt("id=%" PRIu64 ",counts=%s,src=%d", e.id, jarr_num(counts_of(e)).c_str(), src_form(e.id)));
+            G::emplace_back(*v, e, src_form(e.id));
             m.e.push_back(e);
             ++stats.elements;
             if (!check("emplace_back")) return;
@@ -159,8 +161,8 @@ struct Runner
                     remaining -= c * f.size;
                 }
                 MElem e = G::make_model_elem(next_id++, m.fixed, counts);
-                ctx("emplace_back", fmt("refill id=%" PRIu64 ",counts=%s", e.id, jarr_num(counts_of(e)).c_str()));
-                G::emplace_back(*v, e);
+                ctx("emplace_back", fmt("refill id=%" PRIu64 ",counts=%s,src=%d", e.id, jarr_num(counts_of(e)).c_str(), src_form(e.id)));
+                G::emplace_back(*v, e, src_form(e.id));
                 m.e.push_back(e);
                 ++stats.elements;
                 if (!check("emplace_back")) return;
@@ -205,8 +207,8 @@ struct Runner
                     remaining -= c * f.size;
                 }
                 MElem e = G::make_model_elem(next_id++, m.fixed, counts);
-                ctx("emplace_back", fmt("after reserve id=%" PRIu64 ",counts=%s", e.id, jarr_num(counts_of(e)).c_str()));
-                G::emplace_back(*v, e);
+                ctx("emplace_back", fmt("after reserve id=%" PRIu64 ",counts=%s,src=%d", e.id, jarr_num(counts_of(e)).c_str(), src_form(e.id)));
+                G::emplace_back(*v, e, src_form(e.id));
                 m.e.push_back(e);
                 ++stats.elements;
                 if (!check("emplace_back")) return;
